@@ -80,6 +80,10 @@ fn view_key(kind: ElementKind, key: &str) -> String {
         (ElementKind::Assertion, "by") => "asserted_by".to_string(),
         (ElementKind::Assertion, "status") => "lifecycle.status".to_string(),
         (ElementKind::Evidence, "status") => "lifecycle.status".to_string(),
+        // The engine state is rendered inside the `_system` block, not at the
+        // top level: a historical read re-checks `{state: "archived"}` against
+        // the view, and reading the top-level key compared it with null.
+        (_, "state") => "_system.state".to_string(),
         _ => key.to_string(),
     }
 }
